@@ -21,7 +21,10 @@ def _int_of(k):
         if txt.startswith("'"):
             return ("char", n)
         return ("int", n)
-    return ("unknown", "const:" + k.get("const", "?")[:30])
+    c = k.get("const", "?")
+    if isinstance(c, str) and len(c) >= 2 and c[0] == '"' and c[-1] == '"':
+        return ("str", c[1:-1])
+    return ("unknown", "const:" + c[:30])
 
 
 class Interp:
@@ -76,6 +79,8 @@ class Interp:
         if op.endswith("WithOverflow"):
             r = self.binop(op[:-12], a, b)
             return ("tuple", [r, ("bool", False)])
+        if a[0] == "str" and b[0] == "str" and op in ("Eq", "Ne"):
+            return ("bool", (a[1] == b[1]) == (op == "Eq"))
         if a[0] == "res" and b[0] == "int" and op == "Rem":
             if a[2] % b[1] == 0 and b[1] > 0:
                 return ("int", a[1] % b[1])
